@@ -4,6 +4,7 @@
 package rig
 
 import (
+	"unsafe"
 	"bytes"
 	"context"
 	"errors"
@@ -158,9 +159,9 @@ func (r *Rig) Dial() (*rpc.Conn, error) {
 
 // SetClientModes applies the client-side modes of cfg to conn.
 func SetClientModes(conn *rpc.Conn, cfg Config) {
-	if cfg.CliBuf > 0 {
-		conn.SetBufferSize(cfg.CliBuf)
-	}
+	// cfg.CliBuf is applied through Options.ClientBufferSize only:
+	// Conn.SetBufferSize blocks on the reader's lock until the next message
+	// arrives once the reader goroutine sits in ReadMessage.
 	if cfg.CliPipelining {
 		conn.SetPipelining(true)
 	}
@@ -236,7 +237,8 @@ type CallRec struct {
 	ErrText  string
 	Reply    []byte // the slice handed back, kept as is
 	ReplySum [32]byte
-	BufUsed  bool   // reply was placed in the caller-supplied context buffer
+	BufUsed  bool   // the reply aliases the caller-supplied context buffer
+	BufEnd   int    // offset in Buf of the end of the reply when BufUsed
 	Buf      []byte // the caller-supplied buffer (full capacity)
 	Sentinel bool   // reply object still held the sentinel after a failure
 }
@@ -250,39 +252,59 @@ func Method(codec string, shape int) string {
 	return fmt.Sprintf("S.%s%d", svc.Prefix(codec), shape)
 }
 
+// DoOpt overrides parts of a call made by Do.
+type DoOpt struct {
+	Args  interface{}     // argument object instead of a Box holding the payload
+	Reply interface{}     // reply object instead of a Box holding the sentinel
+	Ctx   context.Context // context for the CallWithContext forms
+}
+
 // Do performs one unary call in the given form and waits for it.
 // bufCap is the capacity of the context buffer for FormCtxBuf.
-func Do(c Caller, form, codec, method string, spec svc.Spec, bufCap int) *CallRec {
+func Do(c Caller, form, codec, method string, spec svc.Spec, bufCap int, opt *DoOpt) *CallRec {
 	args := svc.Build(spec)
 	rec := &CallRec{ID: spec.ID(), Form: form, Method: method, Spec: spec, Args: args}
 	in := svc.NewBox(codec)
 	in.Set(args)
 	out := svc.NewBox(codec)
 	out.Set(append([]byte(nil), Sentinel...))
+	inObj, outObj := in.Ptr(), out.Ptr()
+	ctx := context.Background()
+	if opt != nil {
+		if opt.Args != nil {
+			inObj = opt.Args
+		}
+		if opt.Reply != nil {
+			outObj = opt.Reply
+		}
+		if opt.Ctx != nil {
+			ctx = opt.Ctx
+		}
+	}
 	rec.StartT = time.Now()
 	rec.Start = svc.Stamp()
 	switch form {
 	case FormCall:
-		rec.Err = c.Call(method, in.Ptr(), out.Ptr())
+		rec.Err = c.Call(method, inObj, outObj)
 	case FormGo:
-		call := c.Go(method, in.Ptr(), out.Ptr(), make(chan *rpc.Call, 1))
+		call := c.Go(method, inObj, outObj, make(chan *rpc.Call, 1))
 		<-call.Done
 		rec.Err = call.Error
 	case FormRoundTrip:
-		call := &rpc.Call{ServiceMethod: method, Args: in.Ptr(), Reply: out.Ptr(), Done: make(chan *rpc.Call, 1)}
+		call := &rpc.Call{ServiceMethod: method, Args: inObj, Reply: outObj, Done: make(chan *rpc.Call, 1)}
 		c.RoundTrip(call)
 		<-call.Done
 		rec.Err = call.Error
 	case FormCtx:
-		rec.Err = c.CallWithContext(context.Background(), method, in.Ptr(), out.Ptr())
+		rec.Err = c.CallWithContext(ctx, method, inObj, outObj)
 	case FormCtxBuf:
 		buf := make([]byte, bufCap)
 		for i := range buf {
 			buf[i] = 0xA5
 		}
 		rec.Buf = buf
-		ctx := context.WithValue(context.Background(), rpc.BufferContextKey, buf[:0])
-		rec.Err = c.CallWithContext(ctx, method, in.Ptr(), out.Ptr())
+		ctx = context.WithValue(ctx, rpc.BufferContextKey, buf[:0])
+		rec.Err = c.CallWithContext(ctx, method, inObj, outObj)
 	default:
 		rec.Err = errors.New("rig: unknown form " + form)
 	}
@@ -290,15 +312,60 @@ func Do(c Caller, form, codec, method string, spec svc.Spec, bufCap int) *CallRe
 	rec.EndT = time.Now()
 	if rec.Err != nil {
 		rec.ErrText = string(append([]byte(nil), rec.Err.Error()...))
-		rec.Sentinel = bytes.Equal(out.Get(), Sentinel)
+		rec.Sentinel = opt != nil && opt.Reply != nil || bytes.Equal(out.Get(), Sentinel)
+		return rec
+	}
+	if opt != nil && opt.Reply != nil {
 		return rec
 	}
 	rec.Reply = out.Get()
 	rec.ReplySum = svc.Sum(rec.Reply)
 	if form == FormCtxBuf && len(rec.Reply) > 0 && cap(rec.Buf) > 0 {
-		rec.BufUsed = &rec.Reply[0] == &rec.Buf[:1][0]
+		off := uintptr(unsafe.Pointer(&rec.Reply[0])) - uintptr(unsafe.Pointer(&rec.Buf[0]))
+		if off < uintptr(len(rec.Buf)) {
+			rec.BufUsed = true
+			rec.BufEnd = int(off) + len(rec.Reply)
+		}
 	}
 	return rec
+}
+
+// CanaryIntact checks the bytes of the caller-supplied buffer the library
+// had no business writing: encLen is the length of the encoded reply body (what
+// the library copies into the buffer when it fits). If the buffer is too small
+// for it, no byte may have changed; otherwise no byte from encLen on.
+func (rec *CallRec) CanaryIntact(encLen int) (bool, int) {
+	from := 0
+	if encLen <= len(rec.Buf) {
+		from = encLen
+	}
+	for i := from; i < len(rec.Buf); i++ {
+		if rec.Buf[i] != 0xA5 {
+			return false, i
+		}
+	}
+	return true, -1
+}
+
+// EncodedLen returns the length of payload when encoded by the body codec.
+func EncodedLen(codec string, payload []byte) int {
+	box := svc.NewBox(codec)
+	box.Set(payload)
+	b, err := svc.NewCodec(codec)().Marshal(nil, box.Ptr())
+	if err != nil {
+		return -1
+	}
+	return len(b)
+}
+
+// WaitUp waits until the server accepts connections.
+func (r *Rig) WaitUp() error {
+	conn, err := r.Dial()
+	if err != nil {
+		return err
+	}
+	conn.Close()
+	return nil
 }
 
 // CheckReply is the C01 oracle for one successful call: "" if the reply is
